@@ -19,7 +19,7 @@ CHECKS.update({
              technique='contracts on the real Simulation functions (simple_func table, _sanitize, bitmask, _execute incl. loop invariants for concat/select, _mem_update, RomBlock._get_read_data) discharged by z3 from VCs generated over the real ASTs; executable-contract cross-check on CPython; bounded whole-simulator runs against the reference cycle semantics',
              text='per-function contracts proved for all widths/values/iteration counts (level P); step/_initialize/__iter__ glue covered by the bounded family (level B), labelled bounded',
              note='pyvc VC generator and its Python-semantics assumptions (DESIGN 3); z3; int theory rewrites (lean/PyInt.lean)'),
- 'C02': dict(category='other', engines=['elab'],
+ 'C02': dict(category='translation_validation', engines=['elab'],
              technique='bounded stand-in (level B): FastSimulation / CompiledSimulation executed on the design family incl. limb-crossing widths and synthesized/optimized blocks, compared per cycle and wire with the reference cycle semantics that Simulation is verified against',
              text='bounded runs; no deductive contract on the code generators yet', note='spec/cycle.py; gcc; host CPU'),
  'C06': dict(category='other', engines=['elab'],
@@ -71,3 +71,42 @@ CHECKS.update({
              text='bounded (level B)', note='CPython'),
 })
 NA = {}
+
+
+# ---- as built: proved (pyvc) parts per property, prepended to the technique / text of the check
+PV = 'pyvc VC generator and its Python-semantics assumptions (DESIGN 3, 9); z3; int theory lemmas re-checked in lean/PyInt.lean (thorough tier)'
+PROVED = {
+ 'C01': ('Simulation._initialize (symbolic number of wires, 3 loop invariants: register_value_map > reset_value > default_value) and Simulation.step (input validation; phase order with loop invariants over ghost state) are also under contract', None),
+ 'C02': ('P: translation validation for ALL widths of the FastSimulation per-op expression templates (real simple_func templates evaluated from source, emitted text parsed back) with the real _no_mask_bitwidth mask-elision rule, discharged by z3; PB: translation validation of every emitted C op of CompiledSimulation at limb-crossing widths (elab/cemit); multi-limb multiply on limb-pattern stimuli; then ',
+         'FastSimulation per-op emission proved for all widths/values (P); C emitters per width instance (PB); whole programs bounded (B)'),
+ 'C03': ('P: contracts on the real gate-level generators _one_bit_add, _add_helper (induction on operand length), _basic_add, _basic_sub, _basic_lt (induction), _basic_gt over the builder model (wire = (bitwidth, den); add_net = WF obligation + documented value), discharged by z3 for all widths and values; then ',
+         'adder / subtractor / comparator generators proved for all widths (P); _basic_mult, synthesize glue and maps bounded per design (PB)'),
+ 'C04': ('P: contract on the nested function _constant_prop_pass.constant_prop_check (every folding rule computes the documented value of the replaced net, all widths/values) and the CSE symmetry lemma over the real constant ops_where_arg_order_matters, discharged by z3; then ',
+         'folding rules and CSE argument-sorting proved (P); pass-level equivalence bounded per design (PB)'),
+ 'C06': ('P: (len, den) contracts on WireVector._two_var_op (10 ops x wire/int operand), __invert__, __getitem__ (Python index/slice semantics), _extend_with_bit, concat, select over the builder model, discharged by z3 for all widths and values; then ',
+         'operator layer proved for all widths/values (P) except the documented a*b length (known finding); helpers / shifts / signed ops bounded per width (PB)'),
+ 'C07': ('P: contract on conditional._finalize (select-chain fold for ANY number of branches; wires, registers with default self, `defaults`, memory write ports) with loop invariants + exclusion lemma by induction, discharged by z3; then ',
+         'fold of the branch lists proved for all branch counts (P); predicate construction and exclusion check bounded by tree enumeration (PB)'),
+ 'C08': ('MemBlock._make_copy / RomBlock._make_copy attribute preservation also under contract; ', None),
+ 'C09': ('P: contracts on every rewrite rule of nand_synth / and_inverter_synth (one-bit wires: new logic computes the documented value using only the target gates; kept ops return truthy), discharged by z3; then ',
+         'per-op rewrite rules proved (P); pass-level equivalence and structural postconditions bounded per design (PB)'),
+ 'C10': ('P: contract Block.sanity_check_net accepts exactly WF_net (DESIGN A.2) - 7465 obligations over (op, arity 0..4, 0..2 destinations, parameter shape) cases with symbolic bitwidths / wire kinds, discharged by z3; then ',
+         'per-net rule list proved equivalent to WF_net for all bitwidths (P) within the stated arities; block-level faults and iteration schedules by fault enumeration (B)'),
+ 'C11': ('P: attribute-preservation contracts on clone_wire, MemBlock._make_copy, RomBlock._make_copy discharged by z3; then ',
+         'copy primitives proved attribute-preserving (P); frame and behaviour bounded (PB/B)'),
+ 'C12': ('P: contract on input_from_blif.extract_flop.flop_next: each of the 32 table entries builds the next-state function its Yosys cell name denotes (all values), discharged by z3; then ',
+         'flip-flop table proved (P); covers, hierarchy, vectors, ISCAS bounded (B)'),
+ 'C13': ('P: contracts on half_adder, _one_bit_add_no_concat, one_bit_add, ripple_half_add, ripple_add (induction on operand length) discharged by z3 for all widths and values; then ',
+         'ripple adders proved for all widths (P); prefix / look-ahead / reducer adders and multipliers bounded per width (PB)'),
+ 'C14': ('P: (len, den) contracts on select, w[i] / w[lo:hi], concat, bitfield_update discharged by z3 for all widths and values; then ',
+         'select / slicing / concat / bitfield_update proved (P; bitfield value clause without explicit end); mux family, shifters, patterns, structs bounded per shape (PB)'),
+}
+for _k, (_t, _x) in PROVED.items():
+    c = CHECKS[_k]
+    c['technique'] = _t + c['technique']
+    if _x:
+        c['text'] = _x
+    if 'pyvc' not in c['engines']:
+        c['engines'] = ['pyvc'] + c['engines']
+    if 'pyvc' not in c['note']:
+        c['note'] = PV + '; ' + c['note']
